@@ -143,3 +143,11 @@ package airgapped
 //@   assert@call createPartialSign[C03.sign.payload] msg == loc(s).Payload && dkgIdentifier == o.DKGIdentifier
 //@   loop 0 invariant len(signs) == $i + 1 && (forall j int :: 0 <= j && j <= $i ==> signs[j].MessageID == $range[j].MessageID)
 //@   loop 0 invariant o.DKGIdentifier == old(o.DKGIdentifier)
+
+//@ func (*Machine).loadBLSKeyring
+//@   safety C18
+//@   nosafety
+//@   requires am != nil
+//@   modifies *
+//@   modifies $bufc
+//@   ensures[C18.keyring.nonnil] result1 == nil ==> result0 != nil
